@@ -120,6 +120,13 @@ pub fn check(env: &Env, f: &F) -> Vec<String> {
 }
 
 pub fn replay(case: &Value) -> Option<String> {
+    if case["kind"] == "c15big" {
+        let v = job(case);
+        if let Some(e) = v.get("error") {
+            return Some(format!("job error: {e}"));
+        }
+        return v["problems"].as_array().and_then(|a| a.first()).map(|p| p.as_str().unwrap_or("").to_string());
+    }
     if case["kind"] == "sanitize_history" {
         let first: crate::nets::NetSpec = serde_json::from_value(case["first"].clone()).ok()?;
         let a = Bound::new("first", &first, 1).ok()?;
@@ -316,7 +323,98 @@ pub fn run(tier: &str) -> Result<Report, String> {
         rep.add_count("two_network_histories", n_pairs as u64);
         rep.violations.extend(bad.into_iter().take(20));
     }
+    // wide models (more than 2^53 state x colour pairs), in child processes
+    {
+        let mut jobs = vec![];
+        for m in ["synthetic:chain60", "synthetic:gated44", "synthetic:chain58p"] {
+            for k in [1u64, 3] {
+                jobs.push(json!({"kind": "c15big", "model": m, "k": k}));
+            }
+        }
+        let limit = if tier == "quick" { 45.0 } else { 600.0 };
+        let results: Vec<(Value, crate::jobs::JobResult)> = jobs.par_iter().map(|j| (j.clone(), crate::jobs::run(j, limit))).collect();
+        let mut wide = vec![];
+        for (j, r) in results {
+            match r {
+                crate::jobs::JobResult::Done(v) => {
+                    if let Some(e) = v.get("error") {
+                        return Err(format!("wide model job {j}: {e}"));
+                    }
+                    rep.evaluations += v["cases"].as_u64().unwrap_or(0) * 2;
+                    for p in v["problems"].as_array().cloned().unwrap_or_default() {
+                        rep.violations.push(Violation { case: json!({"kind": "c15big", "model": j["model"], "k": j["k"]}), what: format!("on {}: {}", j["model"].as_str().unwrap_or(""), p.as_str().unwrap_or("")), size: 60 });
+                    }
+                    wide.push(json!({"model": j["model"], "k": j["k"], "cases": v["cases"], "pairs_log2": v["pairs_log2"], "wall_s": v["wall_s"]}));
+                }
+                crate::jobs::JobResult::Timeout => rep.cap(format!("job {j} exceeded {limit}s and was stopped (no verdict)")),
+                crate::jobs::JobResult::Crashed(e) => return Err(format!("wide model job {j} crashed: {e}")),
+            }
+        }
+        rep.set("wide_models", json!(wide));
+    }
     rep.sample(json!({"network": "con2", "formula": "(!{x}: (3{y}: ((@{x}: (AX {y})) & (EF {x}))))", "k": [2, 3, 5], "check": "model_check_formula == model_check_formula_dirty point-wise; BDD over the variables of SymbolicContext::new; identical for all k; usable with SymbolicAsyncGraph::new"}));
-    rep.rule = format!("every closed plain formula with <= {m} nodes and every plain template formula on {which:?}, on graphs with k = d, d+1, d+3 spare variable sets (d = quantifier nesting depth): sanitised result == raw result on every state x valid colour == explicit-state oracle; expressed over exactly the variables of SymbolicContext::new(network); subset of and usable with SymbolicAsyncGraph::new(network); BDD-identical for all k; every multi-colour network additionally with the unit set of the graph restricted (SymbolicAsyncGraph::restrict) to every second valid colour, where raw and sanitised results must also stay inside the restricted unit set; and every ordered pair and triple over a pool of 8 formulae of different heights through model_check_multiple_formulae vs model_check_multiple_formulae_dirty, position by position; plus two-network histories (ordered pairs of 5 networks with identical variable names and parameter signature, sanitising calls on the first, then all obligations for 7 formulae on the second, on one fresh OS thread). distinct_nontrivial = number of (formula, network) pairs");
+    rep.rule = format!("every closed plain formula with <= {m} nodes and every plain template formula on {which:?}, on graphs with k = d, d+1, d+3 spare variable sets (d = quantifier nesting depth): sanitised result == raw result on every state x valid colour == explicit-state oracle; expressed over exactly the variables of SymbolicContext::new(network); subset of and usable with SymbolicAsyncGraph::new(network); BDD-identical for all k; every multi-colour network additionally with the unit set of the graph restricted (SymbolicAsyncGraph::restrict) to every second valid colour, where raw and sanitised results must also stay inside the restricted unit set; and every ordered pair and triple over a pool of 8 formulae of different heights through model_check_multiple_formulae vs model_check_multiple_formulae_dirty, position by position; plus two-network histories (ordered pairs of 5 networks with identical variable names and parameter signature, sanitising calls on the first, then all obligations for 7 formulae on the second, on one fresh OS thread); plus wide synthetic models (> 2^53 pairs; results that are everything but one state, single states, ...): sanitised == raw result transferred to the canonical context by lib-param-bn, single and batch entry points, k = 1, 3. distinct_nontrivial = number of (formula, network) pairs");
     Ok(rep)
+}
+
+/// Child job: wide model (more than 2^53 pairs): sanitised result == raw result moved to the canonical
+/// context with lib-param-bn's `transfer_from` (no sanitising code of the library involved).
+pub fn job(job: &Value) -> Value {
+    use biodivine_hctl_model_checker::model_checking as mc;
+    let t0 = std::time::Instant::now();
+    let name = job["model"].as_str().unwrap_or("");
+    let k = job["k"].as_u64().unwrap_or(1) as u16;
+    let big = match crate::bigmodels::load(name, k) {
+        Ok(b) => b,
+        Err(e) => return json!({"error": e}),
+    };
+    let g = &big.graph;
+    let names = big.var_names();
+    let cube = names.join(" & ");
+    let zero = names.iter().map(|n| format!("~{n}")).collect::<Vec<_>>().join(" & ");
+    let texts = vec![
+        "True".to_string(),
+        "False".to_string(),
+        format!("~({cube})"),
+        format!("({cube})"),
+        format!("~({zero})"),
+        format!("({cube}) | ({zero})"),
+        format!("!{{x}}: (AX {{x}} & ~({cube}))"),
+        format!("3{{x}}: @{{x}}: ~({cube})"),
+        format!("!{{x}}: ({{x}} | ~({zero}))"),
+        names[0].clone(),
+    ];
+    let canon = g.symbolic_context().as_canonical_context();
+    let mut problems = vec![];
+    let mut cases = 0u64;
+    let mut check_pair = |what: String, clean: &GraphColoredVertices, dirty: &GraphColoredVertices, problems: &mut Vec<String>| {
+        cases += 1;
+        match canon.transfer_from(dirty.as_bdd(), g.symbolic_context()) {
+            Some(b) => {
+                if &b != clean.as_bdd() {
+                    problems.push(format!("{what}: sanitised result has {} elements, the raw result {} (BDD sizes {} / {})", clean.exact_cardinality(), dirty.exact_cardinality(), clean.as_bdd().size(), b.size()));
+                }
+            }
+            None => problems.push(format!("{what}: the raw result cannot be expressed over the canonical variables")),
+        }
+    };
+    for t in &texts {
+        let r = guarded(AssertUnwindSafe(|| (mc::model_check_formula(t, g), mc::model_check_formula_dirty(t, g))));
+        match r {
+            Ok((Ok(c), Ok(d))) => check_pair(format!("model_check_formula on `{}` (k={k})", crate::report::truncate(t, 60)), &c, &d, &mut problems),
+            other => problems.push(format!("`{}`: evaluation fails: {:?}", crate::report::truncate(t, 60), other.map(|x| (x.0.map(|_| "ok"), x.1.map(|_| "ok"))))),
+        }
+    }
+    // the batch entry points, all formulae at once
+    let ts: Vec<&str> = texts.iter().map(|s| s.as_str()).collect();
+    match guarded(AssertUnwindSafe(|| (mc::model_check_multiple_formulae(ts.clone(), g), mc::model_check_multiple_formulae_dirty(ts.clone(), g)))) {
+        Ok((Ok(c), Ok(d))) if c.len() == texts.len() && d.len() == texts.len() => {
+            for i in 0..texts.len() {
+                check_pair(format!("model_check_multiple_formulae position {i} `{}` (k={k})", crate::report::truncate(&texts[i], 60)), &c[i], &d[i], &mut problems);
+            }
+        }
+        other => problems.push(format!("batch evaluation fails: {:?}", other.map(|x| (x.0.map(|v| v.len()), x.1.map(|v| v.len()))))),
+    }
+    problems.truncate(6);
+    json!({"cases": cases, "problems": problems, "variables": g.num_vars(), "pairs_log2": g.mk_unit_colored_vertices().approx_cardinality().log2(), "wall_s": t0.elapsed().as_secs_f64()})
 }
